@@ -36,7 +36,7 @@ IMPORTS = ['.import * from "b.asm"', '.import csym from "c.asm"', '.import * fro
 B_LINES = ["bsym: nop", "bscope: { binner: rts }", ".const bk = 7", "lda #bk", "jmp bsym", "/// doc for b\nbdoc: nop",
            '.import * from "c.asm"', "nop // €€", '.test "tb" { brk }', "lda bscope.binner", '.import * from "main.asm"',
            '.segment "default" { bseg: nop }']
-C_LINES = ["csym: nop", "cscope: { cinner: rts }", ".const ck = 9", "ldy #ck", "jmp csym", "nop /* \U0001F600 */",
+C_LINES = ['.test "tc" { brk }', "csym: nop", "cscope: { cinner: rts }", ".const ck = 9", "ldy #ck", "jmp csym", "nop /* \U0001F600 */",
            '.import * from "b.asm"', '.import * from "c.asm"']      # cyclic with b.asm's import of c.asm / a self-import
 ERROR_LINES = ["lda", "lda undefined_name", ")", "foo bar", ".const", "jmp (", "lda #", '.import * from "nowhere.asm"', "}", "{",
                "start: nop", "K"]
@@ -244,6 +244,8 @@ def gen_history(rng, max_events=40):
             events.append(gen_request(rng, buffers, disk, method="workspace/symbol", file="main.asm"))
             for f in rng.sample(["main.asm", "b.asm", "c.asm"], 2):
                 events.append(gen_request(rng, buffers, disk, method="textDocument/documentSymbol", file=f))
+            # tests of imported files must not show up as lenses of the importing document
+            events.append(gen_request(rng, buffers, disk, method="textDocument/codeLens", file=rng.choice(["main.asm", "c.asm"])))
         elif r < 0.57:
             # open a file that is not part of the project
             f = rng.choice(["other.asm", "other.asm", "untitled:Untitled-1"])
